@@ -44,6 +44,9 @@ def enumerate_faults(project):
             # the file is there but cannot be opened for reading (permissions, a stale mount): like a missing file, the rewrite
             # phase cannot complete
             faults.append({"kind": "unreadable", "path": f["path"], "errno": [13, 5, 116][i % 3]})
+    if any(k == project["syntax"] for k, _v in project["cfg"]["file_patterns"]) and project["files"]:
+        # the fault sits in the config file's own entry (a further pattern that occurs nowhere) while all other files are fine
+        faults.append({"kind": "cfg_break"})
     for sv in ("lower", "equal", "junk", "trailing"):
         faults.append({"kind": "reject", "sv": sv})
     faults.append({"kind": "nochange"})
@@ -165,7 +168,7 @@ class FaultPos:
         perms = [tuple(range(len(entries)))] + [p for p in perms if p != tuple(range(len(entries)))]
         perms = perms[:6]
 
-        def world_for(order_idx, cover_path=None, cover_pattern="{version}", alias_extra=False):
+        def world_for(order_idx, cover_path=None, cover_pattern="{version}", alias_extra=False, cfg_break=False):
             perm = perms[order_idx % len(perms)]
             p2 = dict(project)
             cfg = dict(project["cfg"])
@@ -174,6 +177,9 @@ class FaultPos:
                 pair = project["alias_pair"]
                 later = [k for k, _v in cfg["file_patterns"] if k in pair][-1]
                 cfg["file_patterns"] = [[k, (list(v) + ["@zz never {version}"]) if k == later else v] for k, v in cfg["file_patterns"]]
+            if cfg_break:
+                cfg["file_patterns"] = [[k, (list(v) + ["@zz never {version}"]) if k == project["syntax"] else v]
+                                        for k, v in cfg["file_patterns"]]
             if cover_path is not None:
                 import fnmatch
                 hit = [k for k, v in cfg["file_patterns"] if k == cover_path or fnmatch.fnmatch(cover_path, k)]
@@ -205,6 +211,8 @@ class FaultPos:
             fault = plan["fault"]
             if fault["kind"] == "alias_extra":
                 w = world_for(plan["order"], alias_extra=True)
+            elif fault["kind"] == "cfg_break":
+                w = world_for(plan["order"], cfg_break=True)
             elif fault["kind"] == "cover":
                 w = world_for(plan["order"], fault["path"], fault["tail"])
             else:
@@ -251,7 +259,7 @@ class FaultPos:
                 ctx.count("read_fault_not_reached")
                 continue
             ctx.fault("fs_" + fault["kind"] if fault["kind"] in ("break", "remove", "break+cover", "unreadable") else
-                      ("config_" + fault["kind"] if fault["kind"] in ("cover", "alias_extra") else "version_" + fault["kind"]))
+                      ("config_" + fault["kind"] if fault["kind"] in ("cover", "alias_extra", "cfg_break") else "version_" + fault["kind"]))
             ctx.nontriv((runner.short_hash(project["cfg"]["file_patterns"]), runner.short_hash(fault), plan["order"], plan["mode"]))
             ctx.transition((fault["kind"], plan["mode"], res.exit_code, project["vcs"] is not None))
             detail = "fault %s order %d mode %s argv %s -> exit %s (%s)" % (
